@@ -171,7 +171,8 @@ Definition restored_differs (sw : switches) (orc : oracles) (panics : ssite -> b
   negb (texts_eqb (skipn (S n) a) (skipn (S n + 2) b)).
 
 (* ---------- model-only probe: are the hypotheses of the round-trip theorems met? ----------
-   after every op of the script: wf_world_b, at_save_point, resave_hyp_b ('1' / '0' each; "--": no story) *)
+   after every op of the script: wf_world_b, at_save_point, resave_hyp_b, no-alias-entry
+   ('1' / '0' each; "--": no story) *)
 Fixpoint wf_trace_loop (sw : switches) (orc : oracles) (panics : ssite -> bool) (ssw : save_switches)
          (ops : list hostop2) (d : drv2) (acc : list text) : list text :=
   match ops with
@@ -180,7 +181,11 @@ Fixpoint wf_trace_loop (sw : switches) (orc : oracles) (panics : ssite -> bool) 
       let '(_, d') := run_line2 sw orc panics ssw op d in
       let bits := match dr_world (d2_base d') with
                   | Some w => [if wf_world_b w then 49 else 48; if at_save_point w then 49 else 48;
-                               if resave_hyp_b ssw w then 49 else 48]
+                               if resave_hyp_b ssw w then 49 else 48;
+                               (* no entry of named_flows under the current flow's own name *)
+                               if negb (assoc_mem (fl_name (ss_flow (w_state w)))
+                                          (match ss_named (w_state w) with Some nf => nf | None => [] end))
+                               then 49 else 48]
                   | None => T "--"
                   end in
       wf_trace_loop sw orc panics ssw r d' (bits :: acc)
